@@ -3,8 +3,9 @@
   linear-code schemes.  Model: `PCV.Model.LinCode` (`commit`, `openOne`, `checkOne`, `checkAll`),
   `PCV.Model.LinCodeTranscript` (the `calculate_t(..)?` of `open` / `check`),
   `PCV.Model.LinCodeSetup` (`setup` / `trim`: `C09.lincode_setup_refuses`, `C09.lincode_trim_faithful`).
-  Every refusal branch: an encoder that refuses a row, fewer than two leaves, a point too short for
-  the matrix, a state of the wrong shape, invalid parameters, `v` / well-formedness vector of the wrong
+  Every refusal branch: an encoder that refuses a row, a polynomial larger (D21) or of another size
+  (D25) than a fixed shape was made for, fewer than two leaves, a point too short for
+  the matrix or with the wrong number of coordinates (D23), a state of the wrong shape, invalid parameters, `v` / well-formedness vector of the wrong
   length or missing, a missing proof, missing columns or paths, a wrong leaf position, a failing
   Merkle path, an encoding of the wrong length, a failing column test — and conversely: an ANSWER
   (`Ok(true)` or `Ok(false)`) is given only inside the published pre-value relation.  In-domain
@@ -13,6 +14,7 @@
 -/
 import PCV.Proofs.LinCodeTranscript
 import PCV.Proofs.LinCodeToy
+import PCV.Proofs.Dimensions
 
 set_option linter.unusedSectionVars false
 set_option linter.unusedVariables false
@@ -69,12 +71,42 @@ theorem lincode_commit_oversize_refused (pp : Params F D) (coeffs : List F)
     unfold fitsDims
     exact decide_eq_false (by omega))]
 
-/-- … and a shape law with `n·m ≥ len` (Ligero's `compute_dimensions`: `m = ⌈len / n⌉`) never meets that
-refusal -/
+/-- **A polynomial of another size than the parameters were made for is refused** (fix D25): when
+the number of columns `m` of `compute_dimensions(len) = (n, m)` is not `⌈len / n⌉` — possible only for
+a code of fixed shape, i.e. Brakedown parameters used for a polynomial with fewer (or more)
+coefficients than they were made for; `BrakedownPCParams::compute_dimensions` asserts the equality —
+`commit` aborts instead of zero-padding the polynomial into a different one. -/
+theorem lincode_commit_wrong_size_refused (pp : Params F D) (coeffs : List F)
+    (h : ceilDiv (coeffsOrZero coeffs).length (pp.dims (coeffsOrZero coeffs).length).1
+      ≠ (pp.dims (coeffsOrZero coeffs).length).2) :
+    commit pp coeffs = .error .abort := by
+  unfold commit
+  rw [computeMatrices_oversize pp coeffs (by
+    unfold fitsDims
+    exact decide_eq_false (fun hh => h hh.2))]
+
+/-- … and a shape law with `n > 0` rows and `m = ⌈len / n⌉` columns (Ligero's `compute_dimensions`) never
+meets either refusal: the size test of `compute_matrices` (D21) and the width test (D25) both hold for
+every coefficient vector -/
 theorem lincode_fits_of_ceil_div (dims : Nat → Nat × Nat) (coeffs : List F)
-    (h : ∀ len, len ≤ (dims len).1 * (dims len).2) : fitsDims dims coeffs = true := by
-  unfold fitsDims
-  exact decide_eq_true (h _)
+    (h : ∀ len, 0 < (dims len).1 ∧ (dims len).2 = ceilDiv len (dims len).1) :
+    fitsDims dims coeffs = true :=
+  fitsDims_of_ceilDiv dims coeffs h
+
+/-- in particular Ligero's `compute_dimensions` (`computeDimensions`, with any `calculate_t`) fits
+every polynomial: the fixes D21 / D25 change nothing for the Ligero schemes -/
+theorem lincode_ligero_dims_fit (t : Nat → Nat) (coeffs : List F) :
+    fitsDims (fun len => computeDimensions len (t len)) coeffs = true :=
+  fitsDims_of_ceilDiv _ coeffs (fun len => ⟨dimN_pos len (t len), rfl⟩)
+
+/-- what the size test of `commit` is: at most `n·m` coefficients and `m = ⌈len / n⌉` columns -/
+theorem lincode_fits_iff (dims : Nat → Nat × Nat) (coeffs : List F) :
+    fitsDims dims coeffs = true ↔
+      (coeffsOrZero coeffs).length
+          ≤ (dims (coeffsOrZero coeffs).length).1 * (dims (coeffsOrZero coeffs).length).2 ∧
+        ceilDiv (coeffsOrZero coeffs).length (dims (coeffsOrZero coeffs).length).1
+          = (dims (coeffsOrZero coeffs).length).2 :=
+  fitsDims_iff dims coeffs
 
 /-- **Whatever `commit` answers**: the commitment announces the matrix shape of
 `compute_dimensions`, the codeword length of the encoded rows, and the tree has at least two leaves -/
@@ -196,6 +228,39 @@ theorem lincode_check_wrong_v_length_refused (pp : Params F D) (point : Point F)
   unfold checkOne checkPre
   rw [if_pos h]
 
+/-- **A point with the wrong number of coordinates is refused** (fix D23), whatever the proof, the
+claimed value and the transcript: when `tensor` answers with an `a` that does not have `n_cols`
+entries or a `b` that does not have `n_rows` entries (the inner products of `check` would silently
+truncate the longer operand), `check` never answers `Ok(_)`.  (Which error it is depends on what
+fails first: the tests on `v`, the well-formedness vector, the Merkle paths and `E(v)` come before
+`tensor` in the code; see `lincode_check_wrong_point_length_invalid_commitment`.) -/
+theorem lincode_check_wrong_point_length_refused (pp : Params F D) (point : Point F) (c : Comm D)
+    (value : F) (π : Proof F D) (o : Oracle F) (a b : List F)
+    (ht : tensor point c.nCols c.nRows = .ok (a, b))
+    (hl : a.length ≠ c.nCols ∨ b.length ≠ c.nRows) :
+    ∃ e, checkOne pp point c value π o = .error e :=
+  checkOne_error_of_not_pre pp point c value π o
+    (not_preRelation_of_wrong_lengths pp point c π o a b ht hl)
+
+/-- … and the error is `InvalidCommitment` for every proof that passes the tests `check` makes before
+it calls `tensor`: `v` has `n_cols` entries, the well-formedness vector (when required) is present
+with `n_cols` entries, every opened column has a Merkle path at the transcript's position that
+recomputes the root, and `E(v)` has the announced `n_ext_cols` entries — in particular for the honest
+proof made at a point of the right length and checked at one of another length. -/
+theorem lincode_check_wrong_point_length_invalid_commitment (pp : Params F D) (point : Point F)
+    (c : Comm D) (value : F) (π : Proof F D) (o : Oracle F) (a b w : List F)
+    (ht : tensor point c.nCols c.nRows = .ok (a, b))
+    (hl : a.length ≠ c.nCols ∨ b.length ≠ c.nRows)
+    (hv : π.opening.v.length = c.nCols)
+    (hwf : pp.checkWf = true → ∃ w, π.wf = some w ∧ w.length = c.nCols)
+    (hp : ∀ (j : Nat) col q, π.opening.columns[j]? = some col → o.indices[j]? = some q →
+      ∃ p, π.opening.paths[j]? = some p ∧ p.leafIndex = q ∧
+        recomputeRoot pp.hs (pp.colHash col) p = c.root)
+    (hen : pp.enc π.opening.v = .ok w) (hlen : w.length = c.nExtCols) :
+    checkOne pp point c value π o = .error .invalidCommitment := by
+  unfold checkOne
+  rw [checkPre_wrong_lengths pp point c π o a b w ht hl hv hwf hp hen hlen]
+
 /-- the well-formedness vector missing, or of the wrong length, while the parameters require it:
 `InvalidCommitment` -/
 theorem lincode_check_bad_wf_refused (pp : Params F D) (point : Point F) (c : Comm D)
@@ -243,7 +308,8 @@ theorem lincode_check_missing_proof_not_accepted (pp : Params F D) (point : Poin
 /-! ### in-domain requests never abort -/
 
 /-- **In-domain requests are answered**, on a sponge: a polynomial in the domain of the scheme
-(linear row encoder on its rows, codeword length `≥ 2`), a point whose `tensor` fits the matrix,
+(linear row encoder on its rows, codeword length `≥ 2`), a point whose `tensor` fits the matrix
+(`ha`, `hb`: the right number of coordinates; any other point is refused, D23),
 parameters for which `calculate_t` answers — `open` answers and `check` answers `Ok(true)`; with
 and without the well-formedness check, for every oracle and every prior history.  (`commit`:
 `C11.lincode_commit_is`.) -/
@@ -251,16 +317,49 @@ theorem lincode_in_domain_answered (ro : TRO F D) (tp : TParams F D) (point : Po
     (coeffs : List F) (E : List F → List F) (k : Nat) (h : Encodes tp.pp coeffs E k) (a b : List F)
     (t : Nat)
     (ht : tensor point (coeffMat tp.pp.dims coeffs).m (coeffMat tp.pp.dims coeffs).n = .ok (a, b))
+    (ha : a.length = (coeffMat tp.pp.dims coeffs).m)
     (hb : b.length = (coeffMat tp.pp.dims coeffs).n) (htk : tp.tOf k = .ok t) (s : TLog F D) :
     ∃ π s', openOneT ro tp point (commitC tp.pp coeffs E k) (commitSt tp.pp coeffs E k) s = .ok (π, s') ∧
       checkOneT ro tp point (commitC tp.pp coeffs E k) (claimed tp.pp point coeffs) π s
         = .ok (true, s') :=
-  in_domain_answered ro tp point coeffs E k h a b t ht hb htk s
+  in_domain_answered ro tp point coeffs E k h a b t ht ha hb htk s
 
 /-! non-vacuity on the toy instance (`2 × 2` matrices, repetition code, `ZMod 101`) -/
 example : Encodes (toyPP false) [1, 2, 3] toyE 4 ∧
-    tensor (Point.uni (5 : K)) 2 2 = .ok (tensorUni 5 2 2) ∧ (tensorUni (5 : K) 2 2).2.length = 2 :=
-  ⟨toy_encodes false _ (by decide), rfl, by decide⟩
+    tensor (Point.uni (5 : K)) 2 2 = .ok (tensorUni 5 2 2) ∧ (tensorUni (5 : K) 2 2).1.length = 2 ∧
+    (tensorUni (5 : K) 2 2).2.length = 2 :=
+  ⟨toy_encodes false _ (by decide), rfl, by decide, by decide⟩
+/-- D21 / D25 on the toy code with the shape frozen at `2 × 2` (`toyFixedPP`, the Brakedown situation:
+made for three or four coefficients): five coefficients do not fit (`2·2 < 5`), two would be
+zero-padded (`⌈2/2⌉ = 1 ≠ 2`), the zero polynomial `[0]` likewise — all refused; three and four are
+committed.  Under the shape law of `toyPP` (`m = ⌈len / 2⌉`, Ligero's) every size is committed. -/
+example : (2 : Nat) * 2 < ([1, 2, 3, 4, 5] : List K).length ∧ ceilDiv ([1, 2] : List K).length 2 ≠ 2 ∧
+    commit (toyFixedPP true) [1, 2, 3, 4, 5] = .error .abort ∧
+    commit (toyFixedPP true) [1, 2] = .error .abort ∧
+    commit (toyFixedPP true) [] = .error .abort ∧
+    commit (toyFixedPP true) [1, 2, 3] = commit (toyPP true) [1, 2, 3] ∧
+    (commit (toyFixedPP true) [4, 0, 0, 5]).toBool = true ∧
+    (commit (toyPP true) [1, 2]).toBool = true ∧ (commit (toyPP true) [1, 2, 3, 4, 5]).toBool = true ∧
+    fitsDims (toyPP true).dims ([1, 2, 3, 4, 5] : List K) = true := by decide
+/-- the hypothesis of `lincode_fits_of_ceil_div` on the toy shape law and on Ligero's -/
+example : (∀ len, 0 < ((toyPP true).dims len).1 ∧ ((toyPP true).dims len).2 = ceilDiv len ((toyPP true).dims len).1) ∧
+    computeDimensions 65536 300 = (32, 2048) ∧ ceilDiv 65536 32 = 2048 :=
+  ⟨fun _ => ⟨Nat.succ_pos 1, rfl⟩, by decide +kernel, by decide⟩
+/-- D23 on the toy instance: the honest proof for `[1, 2, 3]` made at the univariate point `5` (a `2 × 2`
+matrix) and checked at the multilinear point `(3, 8, 2)`: `tensor` answers with `|a| = 2`, `|b| = 4 ≠ 2`
+and `check` refuses with `InvalidCommitment` (before the fix: the inner products with `b` were
+truncated to two entries); `open` at that point aborts in `row_mul` -/
+example : (match commit (toyPP true) [1, 2, 3] with
+    | .ok (c, st) =>
+      decide (c.nCols = 2 ∧ c.nRows = 2 ∧
+        (tensor (Point.ml ([3, 8, 2] : List K)) c.nCols c.nRows).map (fun ab => (ab.1.length, ab.2.length))
+          = .ok (2, 4) ∧
+        openOne (toyPP true) (.ml [3, 8, 2]) c st ⟨[7, 9], [2, 0, 3]⟩ = .error .abort) &&
+      (match openOne (toyPP true) (.uni 5) c st ⟨[7, 9], [2, 0, 3]⟩ with
+       | .ok π =>
+         decide (checkOne (toyPP true) (.ml [3, 8, 2]) c 0 π ⟨[7, 9], [2, 0, 3]⟩ = .error .invalidCommitment)
+       | .error _ => false)
+    | .error _ => false) = true := by decide
 example : (match commit (toyPP true) [1, 2, 3] with
     | .ok (c, st) =>
       decide (openOne (toyPP true) (.ml [3]) { c with nCols := 4 } st ⟨[7, 9], [1]⟩ = .error .abort ∧
@@ -275,5 +374,14 @@ example : (match commit (toyPP true) [1, 2, 3] with
          | .error _ => false) = true ∧
         openOne (toyPP true) (.uni 5) c st ⟨[7, 9], [4]⟩ = .error .abort)
     | .error _ => false) = true := by decide
+/-- the hypotheses of `lincode_check_wrong_point_length_invalid_commitment` hold for that honest proof
+(they are the first conjuncts of the relation it satisfies at the point it was made for) -/
+example : checkOne (toyPP true) (.ml [3, 8, 2]) (commitC (toyPP true) [1, 2, 3] toyE 4) 0
+    (honestProof (toyPP true) [1, 2, 3] toyE 4 (tensorUni (5 : K) 2 2).2 ⟨[7, 9], [2, 0, 3]⟩)
+    ⟨[7, 9], [2, 0, 3]⟩ = .error .invalidCommitment := by
+  obtain ⟨hv, hwf, hp, w, _, hen, hlen, _⟩ := honest_preRelation (toyPP true) (.uni 5) [1, 2, 3] toyE 4
+    (toy_encodes true _ (by decide)) _ _ ⟨[7, 9], [2, 0, 3]⟩ rfl (by decide) (by decide) (by decide)
+  exact lincode_check_wrong_point_length_invalid_commitment _ _ _ _ _ _
+    (tensorVec [3]) (tensorVec [8, 2]) w (by decide) (by decide) hv hwf hp hen hlen
 
 end PCV.C17
